@@ -658,6 +658,20 @@ int main(int argc, char **argv) {
       else
         oputs("-");
       oputs("\n");
+    } else if (!strcmp(c, "wfile")) {
+      /* wfile <id> <path> <hex>: (re)write a file in the middle of a script - the same path then holds other contents */
+      char *data = NULL;
+      size_t dl = 0;
+      if (unhex(tok[3] ? tok[3] : "-", &data, &dl)) {
+        oputs("E hex\n");
+        continue;
+      }
+      FILE *wf = fopen(tok[2], "wb");
+      size_t wr = wf ? fwrite(data, 1, dl, wf) : 0;
+      if (wf)
+        fclose(wf);
+      free(data);
+      oprintf("F %d\n", wf && wr == dl ? 0 : 1);
     } else if (!strcmp(c, "mprot") || !strcmp(c, "madv")) {
       /* the CALLER changes the protection / advice of some pages of the code buffer (a JIT that seals finished pages read+exec,
        * excludes them from core dumps, ...): mprot <id> <first page> <pages> <prot>, madv <id> <first page> <pages> <advice> */
